@@ -222,10 +222,18 @@ def generate_lemma(unit, name):
                 P.env.locals[p_] = V(z3.Const(p_, z(srt)), srt)
                 P.wf(P.env.locals[p_])
             return P
-        kv = z3.Int(k)
+        kv = z3.Int(k) if k else None
         req = lambda P, env: z3.And(*[P.ev_spec(r, env).t for r in lem["requires"]]) if lem["requires"] else z3.BoolVal(True)
         ens = lambda P, env: z3.And(*[P.ev_spec(e_, env).t for e_ in lem["ensures"]])
         unf = lambda P: [P.assume_use(u_, P.env) for u_ in lem["unfold"]]
+        if k is None:
+            # a plain consequence of the contracts' clauses and the unit's axioms (composition lemma): one obligation
+            P = setup()
+            unf(P)
+            P.assume(req(P, P.env))
+            P.oblige("lemma:%s/consequence" % name, ens(P, P.env), "lemma", 0)
+            obs.extend(P.obligations)
+            return res, obs
         # base
         P = setup()
         P.assume(kv <= 0)
